@@ -1307,4 +1307,84 @@ theorem attrLocations_items (u : UnitCtx) (secs : Sections) (v : AttrVal) (evs :
   | diverge => rw [ho] at h; simp at h
 
 
+/-! ## the bases of a unit -/
+
+/-- the value of the last attribute named `n` that is a section offset -/
+def lastSec (n : AttrName) : Attrs → Option Nat
+  | [] => none
+  | (m, v) :: rest =>
+    match lastSec n rest with
+    | some o => some o
+    | none => if m = n then (match v with | .secOffset o => some o | _ => none) else none
+
+theorem basesStep_cfg (st : UnitCtx × Option AttrVal) (a : AttrName × AttrVal) :
+    (basesStep st a).1.cfg = st.1.cfg ∧ (basesStep st a).1.dwo = st.1.dwo ∧
+      (basesStep st a).1.lowPc = st.1.lowPc := by
+  obtain ⟨n, v⟩ := a
+  cases n <;> cases v <;> simp [basesStep]
+
+theorem foldl_bases (root : Attrs) : ∀ (st : UnitCtx × Option AttrVal),
+    let r := root.foldl basesStep st
+    r.1.addrBase = (lastSec .addrBase root).getD st.1.addrBase ∧
+    r.1.rnglistsBase = (lastSec .rnglistsBase root).getD st.1.rnglistsBase ∧
+    r.1.loclistsBase = (lastSec .loclistsBase root).getD st.1.loclistsBase ∧
+    r.1.cfg = st.1.cfg ∧ r.1.dwo = st.1.dwo ∧ r.1.lowPc = st.1.lowPc := by
+  induction root with
+  | nil => intro st; simp [lastSec]
+  | cons a rest ih =>
+    intro st
+    have h := ih (basesStep st a)
+    simp only [List.foldl_cons] at h ⊢
+    obtain ⟨h1, h2, h3, h4, h5, h6⟩ := h
+    obtain ⟨c1, c2, c3⟩ := basesStep_cfg st a
+    refine ⟨?_, ?_, ?_, by rw [h4, c1], by rw [h5, c2], by rw [h6, c3]⟩
+    · rw [h1]; obtain ⟨n, v⟩ := a
+      simp only [lastSec]
+      cases lastSec .addrBase rest with
+      | some o => rfl
+      | none => cases n <;> cases v <;> simp [basesStep]
+    · rw [h2]; obtain ⟨n, v⟩ := a
+      simp only [lastSec]
+      cases lastSec .rnglistsBase rest with
+      | some o => rfl
+      | none => cases n <;> cases v <;> simp [basesStep]
+    · rw [h3]; obtain ⟨n, v⟩ := a
+      simp only [lastSec]
+      cases lastSec .loclistsBase rest with
+      | some o => rfl
+      | none => cases n <;> cases v <;> simp [basesStep]
+
+/-- the bases of a unit: the last base attribute given as a section offset, else the default -/
+theorem unitBases_bases (c : Cfg) (dwo : Bool) (secs : Sections) (root : Attrs) (u : UnitCtx)
+    (h : unitBases c dwo secs root = .ok u) :
+    u.addrBase = (lastSec .addrBase root).getD 0 ∧
+    u.rnglistsBase = (lastSec .rnglistsBase root).getD (defaultListsBase c dwo) ∧
+    u.loclistsBase = (lastSec .loclistsBase root).getD (defaultListsBase c dwo) ∧
+    u.cfg = c ∧ u.dwo = dwo := by
+  have hf := foldl_bases root (initialUnit c dwo, none)
+  simp only at hf
+  unfold unitBases at h
+  generalize List.foldl basesStep (initialUnit c dwo, none) root = r at h hf
+  obtain ⟨u0, low⟩ := r
+  simp only at h hf
+  obtain ⟨h1, h2, h3, h4, h5, _⟩ := hf
+  have key : u.addrBase = u0.addrBase ∧ u.rnglistsBase = u0.rnglistsBase ∧
+      u.loclistsBase = u0.loclistsBase ∧ u.cfg = u0.cfg ∧ u.dwo = u0.dwo := by
+    cases low with
+    | none => simp only [Out.ok.injEq] at h; subst h; exact ⟨rfl, rfl, rfl, rfl, rfl⟩
+    | some v =>
+      simp only at h
+      cases ha : attrAddress u0 secs v with
+      | ok oa =>
+        rw [ha] at h
+        cases oa with
+        | none => simp only [Out.bind_ok, Out.pure_eq, Out.ok.injEq] at h; subst h; exact ⟨rfl, rfl, rfl, rfl, rfl⟩
+        | some a => simp only [Out.bind_ok, Out.pure_eq, Out.ok.injEq] at h; subst h; exact ⟨rfl, rfl, rfl, rfl, rfl⟩
+      | err e => rw [ha] at h; simp at h
+      | panic w => rw [ha] at h; simp at h
+      | diverge => rw [ha] at h; simp at h
+  obtain ⟨k1, k2, k3, k4, k5⟩ := key
+  exact ⟨by rw [k1, h1]; rfl, by rw [k2, h2]; rfl, by rw [k3, h3]; rfl, by rw [k4, h4]; rfl, by rw [k5, h5]; rfl⟩
+
+
 end Gimli.Lists
